@@ -6,7 +6,7 @@ from coreutil import Scenario, events, reads, toks
 from refcodec import server_frame, close_payload, decode_client_frames
 
 TRUSTED = ['correspondence: harness/world.py virtual clock (integer-valued float seconds, exact float arithmetic)']
-ASSUMPTIONS = ['time advances only inside selector.wait, by at most the poll interval per loop cycle (a timed-out wait lasts exactly the poll interval)',
+ASSUMPTIONS = ['time advances only inside selector.wait, by at most the poll interval per loop cycle (a timed-out wait lasts exactly the poll interval): `EnvBound cfg.poll env`, the decidable well-formedness condition of environment scripts (C15Run.env_bound_iff); asserted for every generated scenario and counted in the distribution',
                'float rounding for non-integer times and a non-monotonic time.time() are outside the model']
 
 
@@ -48,6 +48,13 @@ def make(rng):
     sc.zero = rng.random() < 0.3     # disabled timeouts given as 0 rather than None
     sc.tdiv = rng.choice([1, 4, 8])  # the clock runs in whole, quarter or eighth seconds (fractional times; exact in binary floating point)
     return sc
+
+
+def env_bound(sc):
+    """`EnvBound cfg.poll env` of lean/Lomond/Proofs/TimerInv.lean, i.e. `TimerRun.envBoundB`: every `selector.wait` step of
+       the script returns after at most `poll` (what the real selector's time-out argument guarantees; the simulated
+       selector takes the duration from the script).  The run-level upper bounds of C15 (C15_Run.lean) assume it."""
+    return all(st[0] != 'wait' or 0 <= st[1] <= sc.poll for st in sc.env)
 
 
 def judge(res, js, line, real, sc):
@@ -171,6 +178,12 @@ def explore(res, tier, seed, model_ok=True):
     res.rule = ('%d histories on the virtual clock (unit 1, 1/4 or 1/8 s: fractional poll/rate/timeouts and arrival times): poll in {1,2,3,5}, ping_rate in {0,1,2,3,4,7,10}, ping_timeout in {None,2,3,5,8,12}, close_timeout in {None,1,3,4,9,30}; 3-30 loop cycles with timeouts and arrivals (Pong, data, Ping) at 0..poll, '
                 'application close() at a random event (in 30%% of those: again at every later event), disabled timeouts given as None or as 0, server Close reply after a random delay; oracle: the inequalities of the property evaluated on the real timestamps; non-trivial = a timer other than Poll fired; distinct by operation line') % n
     scs = [make(rng) for _ in range(n)]
+    for sc in scs:      # well-formedness of the generated environments: the hypothesis `EnvBound` of the upper-bound theorems
+        if env_bound(sc):
+            res.count('env-bound (every wait <= poll)')
+        else:
+            res.crashes.append(dict(what='generated scenario violates EnvBound (a wait step longer than poll)',
+                                    poll=sc.poll, env=[st[:2] for st in sc.env][:40]))
     pairs = coreutil.run_pairs(scs, model_ok)
     for js, line, real, model in pairs:
         if isinstance(real, dict):
